@@ -133,6 +133,14 @@ func (cls *CachedLocations) Open(ctx *Context, sys *System, name string, check b
 
 	var err error
 	if loc == nil || dead {
+		if opening, have := cls.locs[name]; have {
+			// Somebody else is opening this location right now
+			// (the entry is there but its location isn't yet).
+			// Share that entry, and wait for it, instead of
+			// loading a second instance that would replace it.
+			cls.Unlock()
+			return opening.Get(ctx, sys, name, check)
+		}
 		Log(INFO, ctx, "CachedLocations.Open", "name", name, "cached", "empty")
 		ctl := sys.Control()
 		ttl := ctl.LocationTTL
